@@ -63,7 +63,7 @@ def gen_case(rng, i):
         rows = [({others[0]: 1, yv: rng.choice([1, 2]), xv: rng.choice([2, 3, -1])}, rng.randint(2, 8))] + rows
     lo1, lo2 = rng.randint(-5, -2), rng.randint(-5, -2)
     case = {"rows": rows, "xv": xv, "yv": yv, "values": values, "xl": [lo1, rng.randint(2, 5)], "yl": [lo2, rng.randint(2, 5)]}
-    if i % 9 == 3:
+    if i % 18 in (1, 12):
         # a window of zero width or height: the slice is a segment or a point of it, not "no window"
         if rng.random() < 0.5:
             case["xl"] = [pt[xv], pt[xv]]
